@@ -392,6 +392,31 @@ CONN_OFFENCE_CODES = {
 STREAM_SCOPED_BY_RFC = {19}     # a trailer section without END_STREAM that goes on in CONTINUATION
 
 
+def mon_prompt_close(ctx, conn):
+    """C10, bounded time, in the stepping harness: at the first quiescent point after a GOAWAY at which no stream is left in
+    the table and no slot is in use, the connection handler has returned (whatever made the server send the GOAWAY)"""
+    seen_ga, site = False, "-"
+    for si, (op, out) in enumerate(conn.steps):
+        for n, a in parse_out(out):
+            if n == "GA" and not seen_ga:
+                seen_ga = True
+                m = re.match(r"last=(\d+),code=(\d+),(.*)", a)
+                site = m.group(3) if m else "-"
+        if any(n == "returned" for n, _ in parse_out(out)) or out in ("ok gone", "out gone"):
+            return
+        m = re.match(r"ok strms=(\d+) open=(-?\d+) ", out)
+        if seen_ga and m and int(m.group(1)) == 0 and int(m.group(2)) == 0:
+            viol(ctx, conn, "connection-still-open-with-nothing-promised-left", dict(site=site, after=conn.steps[si - 1][0][:80] if si else "-"),
+                 known_class="goaway-never-closes:" + site)
+            return
+
+
+def mon_prompt_close_unmarked(ctx, conn):
+    """the same rule for connections the generator did not mark as offending (mon_conn_offence runs it for the marked ones)"""
+    if not any(c.startswith("#connoffence ") for _, c in conn.comments):
+        mon_prompt_close(ctx, conn)
+
+
 def mon_conn_offence(ctx, conn):
     """C10: after a connection-scoped offence: GOAWAY with an allowed code (or close), no further stream opened,
     ServeConn returns once promised streams have finished."""
@@ -415,21 +440,7 @@ def mon_conn_offence(ctx, conn):
                 returned = True
             elif name == "dispatch" and ga is not None and si > ga[3]:
                 dispatched_after.append(int(args.split(",", 1)[0]))
-    # bounded time, in the stepping harness: at the first quiescent point after the GOAWAY at which no stream is left in
-    # the table and no slot is in use, the connection handler has returned
-    seen_ga = False
-    for si, (op, out) in enumerate(conn.steps):
-        if si < at:
-            continue
-        if any(n == "GA" for n, _ in parse_out(out)):
-            seen_ga = True
-        if any(n == "returned" for n, _ in parse_out(out)):
-            break
-        m = re.match(r"ok strms=(\d+) open=(-?\d+) ", out)
-        if seen_ga and m and int(m.group(1)) == 0 and int(m.group(2)) == 0:
-            viol(ctx, conn, "connection-still-open-with-nothing-promised-left", dict(offence=kind, after=conn.steps[si - 1][0][:80] if si else "-"),
-                 known_class="goaway-never-closes:" + (ga[2] if ga else "-"))
-            break
+    mon_prompt_close(ctx, conn)
     if ga is None and kind in STREAM_SCOPED_BY_RFC:
         # RFC 7540 classes this offence as a stream error (the server escalates it: the rest of F67, F23's obstacle):
         # an answer on the stream alone is an answer too, and then nothing here applies
@@ -881,7 +892,7 @@ def mon_recv_credit_soft(ctx, conn):
 
 
 def run_c10(ctx):
-    return run_family(ctx, ["srv-goaway", "srv-acct"], [lambda c, k: mon_goaway(c, k) and None, mon_conn_offence],
+    return run_family(ctx, ["srv-goaway", "srv-acct"], [lambda c, k: mon_goaway(c, k) and None, mon_conn_offence, mon_prompt_close_unmarked],
                       "srv-goaway: one of 21 connection-scoped offences (frame size, CONTINUATION sequencing, even/lower stream id, SETTINGS values, flow-control, compression, frames on idle streams, idle timeout, a trailer section without END_STREAM that goes on in CONTINUATION or cannot be decoded) after 0-3 requests (some still running) with trailing requests/pings.")
 
 
